@@ -340,6 +340,11 @@ func (w *Worker) runPath(prefix []Decision) {
 					outcome = "dead"
 				case abHalt:
 					outcome = "completed"
+				case abBlocked:
+					outcome = "inconclusive"
+					x.mu.Lock()
+					x.Inconcl["deadlock under the single schedule explored: "+r.msg]++
+					x.mu.Unlock()
 				default:
 					outcome = "inconclusive"
 					x.mu.Lock()
